@@ -21,8 +21,8 @@ import (
 // Clients 4 and 5 are the same link-local address and port on two interfaces (zones): two clients.
 var Clients = []string{"203.0.113.5:4000", "203.0.113.5:4001", "203.0.113.9:4000", "[2001:db8:1::7]:4000", "[fe80::7%eth0]:4000", "[fe80::7%eth1]:4000"}
 
-// Targets: index 0 and 3 are DNS ports; index 6 is NOT a DNS port although it ends in "53".
-var Targets = []string{"93.184.216.34:53", "93.184.216.34:80", "[2606:2800:220:1:248:1893:25c8:1946]:443", "93.184.216.40:53", "[fe80::1%eth0]:53", "[fe80::1234:5678:9abc:def0%a-very-long-zone-name]:8080", "93.184.216.34:8053"}
+// Targets: index 0, 3 and 7 (IPv6) are DNS ports; index 6 is NOT a DNS port although it ends in "53".
+var Targets = []string{"93.184.216.34:53", "93.184.216.34:80", "[2606:2800:220:1:248:1893:25c8:1946]:443", "93.184.216.40:53", "[fe80::1%eth0]:53", "[fe80::1234:5678:9abc:def0%a-very-long-zone-name]:8080", "93.184.216.34:8053", "[2606:4700:4700::1111]:53"}
 
 // Stranger addresses (never a destination of the client).
 var Strangers = []string{"198.51.100.77:7777", "198.51.100.77:53"}
